@@ -9,6 +9,7 @@ from scipy.spatial import Delaunay
 import shapely
 import shapely.geometry as sg
 from shapely.ops import unary_union, polygonize
+from shapely.validation import make_valid
 
 from pero_ocr.core.layout import TextLine
 
@@ -324,8 +325,12 @@ def mask_textline_by_region(baseline, textline, region):
         print('Invalid textline encountered, replacing it with convex hull...')
         textline_shpl = textline_shpl.convex_hull
     if not region_shpl.is_valid:
-        warnings.warn("Input region contains self-intersections, replacing it with convex hull...")
-        region_shpl = region_shpl.convex_hull
+        # repair a self-touching / self-intersecting outline without adding area (the convex hull would let
+        # lines be placed in notches and holes that do not belong to the region)
+        warnings.warn("Input region contains self-intersections, repairing it...")
+        region_shpl = make_valid(region_shpl)
+        if isinstance(region_shpl, sg.GeometryCollection):
+            region_shpl = unary_union([geom for geom in region_shpl.geoms if isinstance(geom, (sg.Polygon, sg.MultiPolygon))])
     baseline_is = region_shpl.intersection(baseline_shpl)
     textline_is = region_shpl.intersection(textline_shpl)
 
